@@ -479,9 +479,11 @@ def run(ctx):
         tempfile.tempdir = old_td
         os.environ["TMPDIR"] = ctx.scratch
     # concurrent readers
-    for k in ([2, 6] if not ctx.thorough else [2, 8, ncpu, 2 * ncpu]):
-        target = os.path.join(ctx.scratch, "solo0.db")
-        want = solo[0]
+    for ki, k in enumerate([2, 6, 4] if not ctx.thorough else [2, 8, ncpu, 2 * ncpu, 5]):
+        # the last round reads a GTF-derived database (input 1), the others a GFF3-derived one
+        which = 1 if ki == (2 if not ctx.thorough else 4) else 0
+        target = os.path.join(ctx.scratch, "solo%d.db" % which)
+        want = solo[which]
         procs = [subprocess.Popen(job_args(py, worker, mode="read", tmp=shared, inp=target), stdout=subprocess.PIPE,
                                   stderr=subprocess.DEVNULL, text=True) for _ in range(k)]
         for pr in procs:
